@@ -493,6 +493,11 @@ def run_atheris(ctx):
             case = {"s": s_}
             ctx.observe(case, run_case(case), True, ["atheris"])
         if r.returncode != 0 and not crashes:
+            if "No module named 'atheris'" in r.stdout:
+                # the optional byte-level engine is not installed (setup.sh could not install it): the campaign is skipped, which
+                # the evidence shows; the Hypothesis / enumeration parts decide
+                ctx.notes["atheris_summary"] = "skipped: atheris not importable"
+                return
             raise RuntimeError("atheris campaign failed: " + r.stdout[-600:])
         ctx.count({"kind": "atheris-campaign", "runs": runs}, True, ["atheris-campaign"])
     finally:
